@@ -2,6 +2,15 @@
 ID = 'C13'
 MODS = ['contracts.c_utils']
 FUNCS = ['yalafi.utils.substitute']
+def _regex_meaning(seed):
+    from props import bounded
+    return bounded.c13_regex_meaning(seed)
+
+
+# the regex part of the property (word boundaries, no match across a blank
+# line): bounded stand-in, reported as such in the evidence
+QUICK_BOUNDED = [_regex_meaning]
+
 TRUSTED = [
     'assumed contract of re.finditer: matches are yielded left to right, '
     'last_end <= start <= end <= len(text), group(0) == text[start:end]',
